@@ -147,6 +147,7 @@ Proof.
     destruct (badd_all_bits _ Hvs s0 C0) as (bb & Eb & Cb & Ab). rewrite Eb. cbn [bind].
     destruct (add_bits bb _ Cb Hpl) as (x & Ex & Cx & _ & Ax). rewrite Ex. cbn [same_outcome].
     split; [exact Cx|]. rewrite Ax, Ab, A0. rewrite !map_map. cbn [abs_field f_val]. now rewrite <- app_assoc.
+  - apply sim_of_same. cbn [same_outcome]. split; [exact C0|exact A0].
 Qed.
 
 (* ---- Ruler.match_packet_descriptor ------------------------------------------------------------------ *)
@@ -166,12 +167,38 @@ Theorem brule_matches_refines pd r : canon_pdesc pd -> canon_rule r ->
 Proof.
   intros [Hf _] [_ Hfds]. unfold brule_matches, rule_matches.
   cbn [abs_pdesc abs_rule rule_nature rule_fds pd_dir pd_fields].
-  destruct (brule_nature r); [|reflexivity].
+  destruct (brule_nature r); [|reflexivity|reflexivity].
   pose proof (select_fds_abs (Some (bpd_dir pd)) (brule_fds r)) as Hsel. cbn [select_fds bselect_fds] in Hsel.
   rewrite Hsel, !map_length.
   destruct (negb (length (bpd_fields pd) =? length (filter (bapplies (bpd_dir pd)) (brule_fds r)))%nat); [reflexivity|].
   rewrite bany_mismatch_refines; [reflexivity|exact Hf|].
   exact (bselect_fds_canon (Some (bpd_dir pd)) _ Hfds).
+Qed.
+
+(* a fragmentation rule is never yielded by the byte-level matcher (no hypothesis on the buffers: neither the
+   descriptors nor the packet are read), and the byte-level manager ignores such rules *)
+Theorem bfragmentation_never_matches pd r : brule_nature r = Fragmentation -> brule_matches pd r = Ok false.
+Proof. unfold brule_matches. intros ->. reflexivity. Qed.
+Theorem bfragmentation_never_yielded rules pd r :
+  In r (gen_list (bmatch_packet_descriptor rules pd)) -> brule_nature r <> Fragmentation.
+Proof.
+  induction rules as [|r0 rules IH]; cbn [bmatch_packet_descriptor gen_list]; [intros []|].
+  destruct (brule_matches pd r0) as [[|]| |] eqn:E; cbn [gen_list]; try (now intros []); [|exact IH].
+  intros [<-|H]; [|exact (IH H)]. intros N. rewrite (bfragmentation_never_matches pd r0 N) in E. discriminate.
+Qed.
+Definition bnot_fragmentation (r : brule) : bool := match brule_nature r with Fragmentation => false | _ => true end.
+Theorem bmatch_packet_descriptor_skips_fragmentation rules pd :
+  bmatch_packet_descriptor rules pd = bmatch_packet_descriptor (filter bnot_fragmentation rules) pd.
+Proof.
+  induction rules as [|r rules IH]; [reflexivity|]. cbn [filter]. unfold bnot_fragmentation at 1.
+  destruct (brule_nature r) eqn:N; cbn [bmatch_packet_descriptor]; rewrite IH; try reflexivity.
+  now rewrite (bfragmentation_never_matches pd r N).
+Qed.
+Theorem bcm_compress_ignores_fragmentation bparse rules packet d st :
+  bcm_compress bparse rules packet d st = bcm_compress bparse (filter bnot_fragmentation rules) packet d st.
+Proof.
+  unfold bcm_compress. destruct (bparse packet) as [p|e|]; cbn [bind]; try reflexivity.
+  now rewrite (bmatch_packet_descriptor_skips_fragmentation rules).
 Qed.
 
 (* the two generators: the byte-level one yields rules of the byte-level rule list whose abstractions
